@@ -7,7 +7,8 @@ L1: theorems of NfcVerif.Props.C06 about the executable models of
     a windowed link (confluence, refinement, no discard, no deadlock) with
     counter-examples for acknowledgements that run ahead of consumption; the
     handover statement for ndeflib-shaped record lists without prefix
-    hypothesis; the server's limit check against any peer.
+    hypothesis; the server's limit check against any peer; histories of one
+    client object (every message to the service connected at that time).
 L2: the REAL SnepClient/SnepServer/HandoverClient/HandoverServer code is run and
     compared with the Lean model driver on the same scenario (messages each
     side put on its socket, callback arguments, client results, server state):
@@ -19,7 +20,10 @@ L2: the REAL SnepClient/SnepServer/HandoverClient/HandoverServer code is run and
       real ContactlessFrontend.connect(llcp=...) calls, real llc / tco / dep, a
       driver double moving radio frames, deterministic schedules with slow and
       preempted consumers - compared with the ideal-channel model and, event
-      by event, with the windowed-link model of Model/SnepSched.lean.
+      by event, with the windowed-link model of Model/SnepSched.lean;
+    * client OBJECT histories on the complete stack (temporary connections,
+      connect to one of two SNEP services, requests, close, in any order;
+      HandoverClient connect / request / close) against Model/SnepObj.lean.
 L3: oracle on the same real runs, independent of the model: octets delivered
     == octets sent, exactly once, in order; Reject / ExcessData / BadRequest
     exactly when specified; nothing above the MIU; nobody hangs; no I PDU
@@ -58,6 +62,9 @@ THEOREMS = [
     "NfcVerif.C06.ack_on_receipt_loses_fragment",
     "NfcVerif.C06.ack_all_received_loses_fragment",
     "NfcVerif.C06.snep_server_limit_any_peer",
+    "NfcVerif.C06.client_history_delivers_to_connected_service",
+    "NfcVerif.C06.client_history_sticky_release_counterexample",
+    "NfcVerif.C06.handover_client_history_delivers",
 ]
 
 
@@ -1089,7 +1096,7 @@ def section_grid(ck, ndefs, model):
 def section_fullstack(ck, rng, ndefs, model, reset):
     """the complete stack under deterministic schedules with slow consumers"""
     from props import c06_full as cf
-    n = 4000 if ck.thorough else 420
+    n = 4000 if ck.thorough else 360
     ideal, ideal_real, win, win_real, descr = [], [], [], [], []
     slow = 0
     for i in range(n):
@@ -1100,6 +1107,11 @@ def section_fullstack(ck, rng, ndefs, model, reset):
             ob = cf.run_full_snep(sc) if proto == "snep" else cf.run_full_ho(sc)
             rp = {"protocol": "fullstack-" + proto, "scenario": sc_json(sc), "client_send_miu": ob["cmiu"],
                   "server_send_miu": ob["smiu"], "schedule": ob["sched"]}
+            owed = cf.owed_dm_failure(ob)
+            if owed:
+                ck.fail(owed[0], owed[1], rp)
+                ck.count("fullstack-runs-hit-by-" + owed[0])
+                return
             bad = cf.stack_oracle(sc, ob)
             if ob["cmiu"] is None or ob["smiu"] is None:
                 bad.append(("fullstack-no-connection", "the data link connection was not established: %s"
@@ -1157,6 +1169,47 @@ def section_fullstack(ck, rng, ndefs, model, reset):
     ck.count("fullstack-runs-with-slow-consumer", slow)
 
 
+def section_histories(ck, rng, ndefs, model, reset):
+    """one client OBJECT over its life time (temporary connections, connect to one of two SNEP services, requests,
+    close, in any order; HandoverClient connect / request / close sequences) on the complete stack"""
+    from props import c06_full as cf
+    n = 1500 if ck.thorough else 210
+    lines, reals, descr = [], [], []
+    for i in range(n):
+        snep = i % 3 != 0
+        sc = cf.gen_hist_snep(ck, rng, ndefs) if snep else cf.gen_hist_ho(ck, rng, ndefs)
+
+        def one():
+            line, real, ob = cf.run_hist_snep(sc) if snep else cf.run_hist_ho(sc, reset)
+            rp = {"protocol": sc["protocol"], "scenario": sc_json(sc), "observed": real[:3000], "schedule": ob["sched"]}
+            owed = cf.owed_dm_failure(ob)
+            if owed:
+                ck.fail(owed[0], owed[1], rp)
+                ck.count("history-runs-hit-by-" + owed[0])
+                return
+            for key, what in (cf.hist_snep_oracle(sc, ob) if snep else cf.hist_ho_oracle(sc, ob)):
+                ck.fail(key, what, rp)
+            lines.append(line)
+            reals.append(real)
+            descr.append(rp)
+            shape = "".join(o["op"] if o["op"] in "cx" else "r" for o in sc["ops"])
+            ck.case(("history", line), len(sc["ops"]) > 1, "history:%s:%s" % ("snep" if snep else "handover",
+                    "temporary-then-connected" if snep and "rc" in shape.replace("x", "") and shape.startswith("r") else
+                    "reconnect" if shape.count("c") > 1 else "other"))
+        guarded(ck, "history-scenario-raises", "client object history on the complete stack",
+                {"protocol": sc["protocol"], "scenario": sc_json(sc)}, one)
+    replies = model.ask_many(lines)
+    dis = 0
+    for line, real, rep, rp in zip(lines, reals, replies, descr):
+        if rep != real:
+            dis += 1
+            ck.fail("tie:client-object-history-model-vs-stack", "model %r, complete stack %r" % (rep[-500:], real[-500:]),
+                    dict(rp, request=line[:4000], model=rep[:4000], impl=real[:4000]))
+    ck.tie("client OBJECT histories (SnepClient: temporary connection / connect to one of two services / requests / close; "
+           "HandoverClient: connect / request / close) model vs the real objects on the complete stack: results, deliveries per "
+           "service, socket after every call, connections opened and closed", cases=len(lines), disagreements=dis, exhaustive=False)
+
+
 def run(ck):
     from sims import snep_ndef as ndefs
     rng = ck.rng
@@ -1175,10 +1228,14 @@ def run(ck):
         "the theorems about the windowed link use unbounded sequence counters and treat a transmitted I PDU as received "
         "at once; the modulo-16 arithmetic, the PDU formats and NFC-DEP chaining are exercised by the complete-stack runs "
         "(and are the subject of C05 / C04), not by C06 theorems",
+        "client object histories: connect() names a service the peer offers and the default SNEP server exists (after a "
+        "refused connect() the code keeps an unconnected socket object in self.socket - outside the histories considered); "
+        "the theorem asks that every message of a history is acceptable to every service, the runs also use services with "
+        "different limits",
         "the model equals the Python code outside the compared scenarios (D-tie is a sample, except the grid)",
     ]
-    ck.trusted += ["hand-written Lean models NfcVerif.Model.Snep / Handover / SnepChannel / SnepSched (state machines cut at the "
-                   "blocking socket calls; interleavings; windowed link), tied by differential runs",
+    ck.trusted += ["hand-written Lean models NfcVerif.Model.Snep / Handover / SnepChannel / SnepSched / SnepObj (state machines cut at the "
+                   "blocking socket calls; interleavings; windowed link; client objects over their life time), tied by differential runs",
                    "harness/sims/snep_chan.py (fake link controller under real nfc.llcp.Socket, lockstep scheduler), "
                    "harness/sims/snep_full.py (device driver double, scheduler controlled threading.Condition/Thread and clocks), "
                    "harness/sims/snep_ndef.py, harness/props/c06.py, harness/props/c06_full.py"]
@@ -1207,6 +1264,8 @@ def run(ck):
     lap("grid")
     section_fullstack(ck, rng, ndefs, model, reset)
     lap("complete-stack")
+    section_histories(ck, rng, ndefs, model, reset)
+    lap("histories")
     ck.notes.append("wall time per section: " + ", ".join(times))
     # (the earlier thorough-tier search with free running threads, sims/snep_stack.py, depended on wall-clock
     # timeouts; the deterministic complete stack above replaces it)
